@@ -1216,6 +1216,19 @@ def h_checked_mul(ex, st, frame, t, nf, args, dty):
     return [(none(dty), ov), (some(Sym(z3.Extract(w - 1, 0, wide), a.ty), dty), z3.Not(ov))]
 
 
+def h_int_partial_cmp(ex, st, frame, t, nf, args, dty):
+    """<uN as PartialOrd>::partial_cmp(&a, &b) / <uN as Ord>::cmp: Some(Ordering) / Ordering"""
+    a = deref_val(ex, st, args[0]) if isinstance(args[0], Ref) else args[0]
+    b = deref_val(ex, st, args[1]) if isinstance(args[1], Ref) else args[1]
+    signed = a.ty.startswith("i")
+    lt = (a.t < b.t) if signed else z3.ULT(a.t, b.t)
+    o = Obj("std::cmp::Ordering")
+    o.discr = Sym(z3.If(lt, BV64(-1), z3.If(a.t == b.t, BV64(0), BV64(1))), "isize")
+    if nf.endswith("partial_cmp"):
+        return [(some(o, dty), None)]
+    return [(o, None)]
+
+
 def h_checked_rem(ex, st, frame, t, nf, args, dty):
     a, b = args[0], args[1]
     if a.ty.startswith("i"):
@@ -1625,6 +1638,8 @@ STD_SUMMARIES = [
     (r"^<(u8|u16|u32|u64|usize|i32|i64) as PartialOrd>::(lt|le|gt|ge)$", h_partial_cmp_int),
     (r"^<(u8|u16|u32|u64|usize|i32|i64) as PartialEq>::(eq|ne)$", h_partial_cmp_int),
     (r"^std::cmp::(min|max)$", h_min_max),
+    (r"^<(u8|u16|u32|u64|usize|i32|i64|isize) as (std::cmp::)?Ord>::(min|max)$", h_min_max),
+    (r"^<(u8|u16|u32|u64|usize|i32|i64|isize) as (std::cmp::)?(PartialOrd|Ord)>::(partial_cmp|cmp)$", h_int_partial_cmp),
     (r"^Box::new_uninit$", h_box_new_uninit),
     (r"^std::boxed::box_assume_init_into_vec_unsafe$", h_box_into_vec),
     (r"^<.* as (\S*::)?IntoFuture>::into_future$", h_into_future),
